@@ -45,6 +45,11 @@ CLAIMED = {
     note="Trusted: Coq kernel; stdlib real axioms (Reals); libm sin/cos as leaves; harness/c05.py. The binding of (qa,qb,qc) to each real model's own function arguments and 1-D inactivity of orientation parameters are exercised by the C12 and C10 checks.",
     technique="Coq proof (matrix algebra over R for all angles) + probe plug-in correspondence",
     design="DESIGN.md §3 C05"),
+ "C06": dict(
+    text="Coq theorems over the reals: the channel weights are (1-i)(1-f), (1-i)f, i(1-f), i f over max(f,1-f) for fractions clipped to [0,1]; P, e1, e2 are orthonormal for every polarisation direction; Mperp = M - qhat(qhat.M) is perpendicular to q; the per-q loop equals the weighted sum of the six cross-section terms for EVERY scattering function of the SLDs and any number of magnetic SLDs, and for functions even in the SLDs it is the property's four-channel form; the non-magnetic kernel is selected exactly when all magnitudes vanish. Tied to the code by an SLD-probe plug-in (a polynomial in three SLDs, with and without an odd term) evaluated through the public 2-D kernel and compared with the Coq binary64 model of the whole magnetic loop (weights, frame, projection, thresholds), and by recombining non-magnetic 2-D calls of real magnetic-capable models (incl. dispersity) against the magnetic call.",
+    note="Trusted: Coq kernel; stdlib real axioms; libm sin/cos leaves supplied by the harness; the 1e-8 weight threshold is part of the statement (weights are required to be 0 or > 1e-8); evenness of real models in their SLDs is assumed, not proved; harness/c06.py.",
+    technique="Coq proof (vector algebra + case analysis over R) + SLD-probe correspondence",
+    design="DESIGN.md §3 C06"),
 }
 NA_REASON = "check not built yet in this session (planned, see DESIGN.md §7)"
 
